@@ -35,3 +35,9 @@ Theorem C14_zero_inferred_refuted :
   self_typed (ZNamed 2 (ZComposite 1)) = true.
 Proof. vm_compute. repeat split. Qed.
 Print Assumptions C14_zero_inferred_refuted.
+
+(* ---- non-vacuity: a tower of named and alias declarations in the domain of theorem 1 ---- *)
+Example ex_zero :
+  let T := ZAlias 3 (ZNamed 2 (ZNamed 1 (ZBasic KFloat64))) in
+  wf T = true /\ typed_ok (fst (fst (zero T))) T = true /\ snd (fst (zero T)) = T.
+Proof. vm_compute. repeat split. Qed.
